@@ -1,6 +1,6 @@
 #!/bin/sh
 # Run the repository's test suite on /repo HEAD + each kept seeded patch (those whose meta says pending); record result in meta.json.
-for d in /verif/seeded/*/; do
+for d in /verif/seeded/${SUITE_GLOB:-*}/; do
   id=$(basename "$d")
   grep -q '"suite_with_patch_on_current_HEAD": "pending' "$d/meta.json" || continue
   dir="/tmp/wt/suite-$id"
